@@ -222,6 +222,8 @@ class Registry:
         names = set(world.all_attr_names()) | {"__class__", "__cause__", "exceptions", "arg0", "arg1", "arg2"}
         for sch in list(self.schema.values()) + list(self.lib_schema.values()):
             names |= set(sch)
+        for lst in self.exc_arg_names.values():
+            names |= set(lst)
         for n in sorted(names):
             comps_["fld:" + n] = AV
         # cells of closures
